@@ -222,12 +222,19 @@ def gen_op(ctx, grid, geo, desc):
         rng.shuffle(tgt)
         return {'op': 'rename', 'map': [[i, j] for i, j in zip(idx, tgt)]}
     fresh = []
+    # every other map uses names the simulator prints differently ('WA105' is 'WA1 5' in a file: digit, zero, digit at the end)
+    quirk = rng.random() < 0.5
+
+    def newname():
+        if quirk:
+            return 'W%s%d0%d' % (rng.choice('ABCDEFGH'), rng.randint(1, 9), rng.randint(0, 9))
+        return 'W%s%s%02d' % (rng.choice('ABCDEFGH'), rng.choice('ABCDEFGH'), rng.randint(10, 99))
     for i in idx:
-        n = 'W%s%s%02d' % (rng.choice('ABCDEFGH'), rng.choice('ABCDEFGH'), rng.randint(10, 99))
+        n = newname()
         # fresh: neither given out in this map nor carried by any block of the grid (an earlier rename of
         # the same case may have introduced it) -- a colliding map is outside the documented precondition
         while n in fresh or n in grid.block:
-            n = 'W%s%s%02d' % (rng.choice('ABCDEFGH'), rng.choice('ABCDEFGH'), rng.randint(10, 99))
+            n = newname()
         fresh.append(n)
     return {'op': 'rename', 'map': [[i, n] for i, n in zip(idx, fresh)]}
 
@@ -296,6 +303,18 @@ def run_case(ctx, case):
             return nrev_v
         ctx.count('file_roundtrips')
         ctx.evaluated()
+        # writing is not an edit: the grid that was written is still the grid it was (same names under the same keys, same
+        # network), ready for the next rename / reorder / write of the same object
+        try:
+            sig_after_write = signature(grid)
+        except HarnessError as e:
+            sig_after_write = None
+            ctx.violation('file:write-alters-grid:' + label, 'the written grid is inconsistent after write(): %s' % e, case)
+        bad_keys = [n for n, b in grid.block.items() if b.name != n][:3]
+        if bad_keys:
+            ctx.violation('file:write-alters-grid:' + label, 'after write() blocks are called %r under the keys %r' % ([grid.block[n].name for n in bad_keys], bad_keys), case)
+        elif sig_after_write is not None:
+            compare(ctx, sig, sig_after_write, case, 'after-write-in-memory:' + label)
         # order of blocks and connections must be what reorder asked for
         if [b.name for b in back.grid.blocklist] != [b.name for b in grid.blocklist]:
             ctx.violation('file:block-order:' + label, 'block order changed by the data-file round trip', case)
@@ -380,7 +399,10 @@ def run_minc(ctx, spec):
         partial = rng.random() < 0.5
         sel = sorted(rng.sample(under, max(1, len(under) // 2))) if partial else None
         case = {'geo': desc, 'volume_fractions': vf, 'spacing': spacing, 'num_fracture_planes': nfp, 'blocks': sel,
-                'fraction_mode': mode}
+                'fraction_mode': mode,
+                # optional arguments: own naming functions for the matrix blocks and their rock types, a distance for the
+                # fracture end of the first connection, initial conditions carried along
+                'options': sorted(o for o in ('matrix_blockname', 'minc_rockname', 'fracture_connection_distance', 'incon') if rng.random() < 0.3)}
         run_minc_case(ctx, case)
         ctx.count('minc_cases')
         ctx.case(repr(case), nontrivial=nlev >= 3, sample=(it < 2))
@@ -402,12 +424,32 @@ def run_minc_case(ctx, case):
     sig0 = signature(grid)
     vf = list(case['volume_fractions'])
     nlev = len(vf)
+    kw = {}
+    opts = case.get('options') or []
+    if 'matrix_blockname' in opts:
+        kw['matrix_blockname'] = lambda blkname, level: 'MNOPQRST'[level] + blkname[1:]
+    if 'minc_rockname' in opts:
+        kw['minc_rockname'] = lambda rockname, level: rockname if level == 0 else 'Z%d%s' % (level, rockname[2:])
+    if 'fracture_connection_distance' in opts:
+        kw['fracture_connection_distance'] = 2.5
+    inc0 = None
+    if 'incon' in opts:
+        inc0 = R.t2incons.t2incon()
+        for k_, b_ in enumerate(grid.blocklist):
+            inc0[b_.name] = [1.0e5 + k_, 20.0 + 0.25 * k_]
+        kw['incon'] = inc0
+    for o in opts:
+        ctx.see('minc_option', o)
     with ctx.guard(case, where='minc') as g:
         idx = grid.minc(list(vf), spacing=case['spacing'] if len(case['spacing']) > 1 else case['spacing'][0],
-                        num_fracture_planes=case['num_fracture_planes'], blocks=case['blocks'])
+                        num_fracture_planes=case['num_fracture_planes'], **kw,
+                        blocks=[grid.block[n] for n in case['blocks']] if (case['blocks'] and len(vf) % 2 == 0) else case['blocks'])   # names, or the blocks themselves
     if g.raised is not None:
         return
     ctx.evaluated()
+    newinc = None
+    if inc0 is not None:
+        idx, newinc = idx
     frac = [x / sum(vf) for x in vf]
     selected = set(case['blocks']) if case['blocks'] else set(orig)
     by_name = dict((b.name, b) for b in grid.blocklist)
@@ -451,6 +493,23 @@ def run_minc_case(ctx, case):
                 break
         if len(chain) != nlev:
             ctx.violation('minc:chain-length', 'block %r: chain of %d continua, %d fractions requested' % (name, len(chain), nlev), case)
+            return
+        if newinc is not None:
+            # every continuum of the block starts from the block's own state
+            want = [float(x) for x in inc0[name].variable]
+            for n in chain:
+                got = newinc[n] if n in [x.block for x in newinc] else None
+                if got is None or [float(x) for x in got.variable] != want:
+                    ctx.violation('minc:initial-conditions', 'continuum %r of block %r starts from %r, the block from %r' % (n, name, got and list(got.variable), want), case)
+                    return
+        if 'minc_rockname' in opts:
+            rocks = [by_name[n].rocktype.name for n in chain]
+            exp_r = [rock] + ['Z%d%s' % (k_, rock[2:]) for k_ in range(1, nlev)]
+            if rocks != exp_r or any(grid.rocktype.get(r_) is not by_name[n].rocktype for r_, n in zip(rocks, chain)):
+                ctx.violation('minc:rock-names', 'block %r: continua have rock types %r, the naming function gives %r' % (name, rocks, exp_r), case)
+                return
+        if 'matrix_blockname' in opts and chain[1:] != ['MNOPQRST'[k_] + name[1:] for k_ in range(1, nlev)]:
+            ctx.violation('minc:matrix-block-names', 'block %r: continua are called %r' % (name, chain), case)
             return
         vols = [by_name[n].volume for n in chain]
         if abs(sum(vols) - vol) > 1e-10 * vol:
@@ -520,6 +579,32 @@ def run_embed_case(ctx, case):
         ctx.violation('embed:total-volume', 'total volume %r -> %r' % (tot0, tot1), case)
     if res.num_blocks != n0 + len(names):
         ctx.violation('embed:block-count', '%d blocks + %d embedded -> %d' % (n0, len(names), res.num_blocks), case)
+    # the result is a grid like any other: its connections join ITS blocks (the host with its reduced volume), and
+    # renaming / reordering it afterwards leaves the flow network alone
+    foreign = [(con.block[0].name, con.block[1].name) for con in res.connectionlist if any(res.block.get(b.name) is not b for b in con.block)]
+    ctx.count('embedded_grids_inspected')
+    if foreign:
+        ctx.violation('embed:connection-joins-block-outside-result', '%d connections of the embedded grid (e.g. %r) join block objects that are not the result\'s blocks' % (len(foreign), foreign[0]), case)
+        return
+    import random
+    rng = random.Random(case['host_index'] * 7919 + len(case['sub_volumes']))
+    sig = signature(res)
+    all_names = [b.name for b in res.blocklist]
+    mp = {}
+    cyc = rng.sample(all_names, min(3, len(all_names)))
+    for a, b in zip(cyc, cyc[1:] + cyc[:1]):
+        mp[a] = b
+    for k, n in enumerate(rng.sample([x for x in all_names if x not in mp], min(4, max(0, len(all_names) - len(mp))))):
+        mp[n] = 'ZE%03d' % k
+    with ctx.guard(case, where='embed+rename+reorder') as g:
+        res.rename_blocks(dict(mp))
+        perm = [b.name for b in res.blocklist]
+        rng.shuffle(perm)
+        cons = [tuple(b.name for b in c.block) for c in res.connectionlist]
+        rng.shuffle(cons)
+        res.reorder(block_names=perm, connection_names=[c[::-1] if rng.random() < 0.4 else c for c in cons])
+    if g.raised is None:
+        compare(ctx, map_signature(sig, mp), signature(res), case, 'embedded+rename+reorder')
 
 
 def run_shard(ctx, spec):
